@@ -210,7 +210,12 @@ type panicStruct struct {
 }
 
 // PanicVals is the menu of panic values.
-var PanicVals = []any{"boom-string", errors.New("boom-error"), 42, panicStruct{7, "seven"}, &SentinelErr{-1, -1}}
+// The strings in the second half read like messages of the reflect package and of the runtime:
+// a constructor that dispatches reflectively and gets an argument list wrong panics with exactly
+// such a string, from inside its body. Whoever recovers cannot tell where it came from.
+var PanicVals = []any{"boom-string", errors.New("boom-error"), 42, panicStruct{7, "seven"}, &SentinelErr{-1, -1},
+	"reflect: Call with too few input arguments", "reflect: Call using zero Value argument", "reflect: CallSlice of non-variadic function",
+	"runtime error: invalid memory address or nil pointer dereference", ""}
 
 // HookPoint identifies a yield point in user code.
 type HookPoint struct {
